@@ -102,7 +102,7 @@ func pick(r *rand.Rand, w ...int) int {
 // genKey draws from a small alphabet so that keys collide; includes 0x00 and 0xff bytes.
 func genKey(r *rand.Rand, nkeys int) []byte {
 	alphabet := [][]byte{
-		[]byte("a"), []byte("b"), []byte("ab"), {0x00}, {0xff}, {0x00, 0xff}, []byte("key-0001"),
+		[]byte("a"), []byte("b"), {}, []byte("ab"), {0x00}, {0xff}, {0x00, 0xff}, []byte("key-0001"),
 		[]byte("key-0002"), {0x61, 0x00}, []byte("zz"), {0xff, 0xff, 0x01}, []byte("m"),
 	}
 	if nkeys > len(alphabet) {
